@@ -142,6 +142,13 @@ func (f *Frame) callFn0(st *State, r *Term, callee *ssa.Function, bindings []Val
 		return f.contractCall(st, r, target, tmap, ct, bindings, args, pos)
 	}
 	if !eng.inModule(target) {
+		// a method of a named basic type with scalar arguments (json.Number.Int64 ...) has nothing to write
+		// through: it is a function of the receiver value
+		if recv := target.Signature.Recv(); recv != nil && eng.externConfined(target) {
+			if _, isBasic := recv.Type().Underlying().(*types.Basic); isBasic && target.Signature.Params().Len() == 0 {
+				return f.pureExtern(st, target, args)
+			}
+		}
 		if eng.externConfined(target) {
 			var ats []types.Type
 			if recv := target.Signature.Recv(); recv != nil {
